@@ -177,8 +177,8 @@ func TestC20_Listeners(t *testing.T) {
 				}
 				select {
 				case <-target.Closed().Wait():
-				case <-time.After(boundArrive):
-					fail = failure{"listeners:not-closed", fmt.Sprintf("connection (%s side) not closed %v after %s", side, boundArrive, closeBy)}
+				case <-time.After(boundArrive()):
+					fail = failure{"listeners:not-closed", fmt.Sprintf("connection (%s side) not closed %v after %s", side, boundArrive(), closeBy)}
 					return
 				}
 				// quiescence: counts must be final
@@ -231,7 +231,7 @@ func TestC20_Listeners(t *testing.T) {
 					}
 				}
 				ev.Label(c20, "registrations", int64(len(regs)))
-			case <-time.After(boundArrive):
+			case <-time.After(boundArrive()):
 				panic("infrastructure: handler did not start")
 			}
 			if p := libraryPanicText(log); p != "" {
@@ -301,7 +301,7 @@ func TestC20_Handlers(t *testing.T) {
 				select {
 				case <-ctx.Wait():
 					r.cancelled.Store(true)
-				case <-time.After(boundArrive):
+				case <-time.After(boundArrive()):
 				}
 				return status.OK
 			}
@@ -355,7 +355,7 @@ func TestC20_Handlers(t *testing.T) {
 					kase.Frames = append(kase.Frames, fmt.Sprintf("duplicate open of live id %d", victim.id))
 					peer.WriteMsg(netfx.OpenMsg(netfx.MakeID(victim.id), 1<<20, payload(victim)))
 					// the connection must end; no second handler for that id
-					if err := peer.ExpectEOF(boundArrive); err != nil {
+					if err := peer.ExpectEOF(boundArrive()); err != nil {
 						kase.Failure = err.Error()
 						ev.Violation(rt, c20, "handlers:duplicate-open-tolerated", kase, "server kept the connection after a duplicate open of a live channel id: %v", err)
 					}
@@ -384,11 +384,11 @@ func TestC20_Handlers(t *testing.T) {
 			ops = append(ops, o)
 		}
 		// every accepted open gets its handler
-		deadline := time.Now().Add(boundArrive)
+		deadline := time.Now().Add(boundArrive())
 		for _, o := range ops {
 			for get(o.id).calls.Load() == 0 {
 				if time.Now().After(deadline) {
-					ev.Violation(rt, c20, "handlers:missing", kase, "no handler invocation for opened channel id %d within %v", o.id, boundArrive)
+					ev.Violation(rt, c20, "handlers:missing", kase, "no handler invocation for opened channel id %d within %v", o.id, boundArrive())
 				}
 				time.Sleep(200 * time.Microsecond)
 			}
@@ -417,12 +417,12 @@ func TestC20_Handlers(t *testing.T) {
 			kase.Frames = append(kase.Frames, fmt.Sprintf("drop connection with %d live handlers", live))
 		}
 		peer.Close()
-		deadline = time.Now().Add(boundArrive)
+		deadline = time.Now().Add(boundArrive())
 		for _, o := range ops {
 			r := get(o.id)
 			for !r.exited.Load() {
 				if time.Now().After(deadline) {
-					ev.Violation(rt, c20, "handlers:context-not-cancelled", kase, "handler of channel %d (behaviour %d, closed-by-peer=%v) still running %v after its channel ended / the connection was lost", o.id, o.behaviour, o.closed, boundArrive)
+					ev.Violation(rt, c20, "handlers:context-not-cancelled", kase, "handler of channel %d (behaviour %d, closed-by-peer=%v) still running %v after its channel ended / the connection was lost", o.id, o.behaviour, o.closed, boundArrive())
 				}
 				time.Sleep(200 * time.Microsecond)
 			}
